@@ -104,8 +104,26 @@ type srcState struct {
 }
 
 type lastValue struct {
-	v  reflect.Value
-	id uint64
+	v         reflect.Value
+	id        uint64
+	processed bool // the report that carried it was a blocking one and has returned: the monitor is done with it
+	shared    bool
+}
+
+// reuseIsSafe: a source may only write into a value it reported earlier when
+// nothing can be reading it: the monitor has finished with the report that
+// carried it, and no other watching source can trigger a re-stack (which would
+// read the slot) while it is being rewritten.
+func (r *Run) reuseIsSafe(c *ClientSpec, lv lastValue) bool {
+	if !lv.processed || lv.shared {
+		return false
+	}
+	for _, o := range r.sc.Clients {
+		if (o.Kind == "reporter" || o.Kind == "blank") && o.Name != c.Name {
+			return false
+		}
+	}
+	return true
 }
 
 // subState: the last part a client surely delivered to the monitor, and the
@@ -468,7 +486,18 @@ func (r *Run) reporter(c *ClientSpec) {
 				v = lv.v // the very same reflect.Value once more
 				r.probe("same-reflect-value-reported-twice")
 			}
-			st.lastVal[c.Name] = lastValue{v, op.Part.ID}
+			if lv, ok := st.lastVal[c.Name]; ok && op.Str == "reuse" && !op.Part.BadIface && !op.Part.Share && lv.v.Type() == v.Type() && r.reuseIsSafe(c, lv) {
+				// the source keeps one long-lived value and updates it in place
+				mergeInPlace(lv.v, v)
+				v = lv.v
+				for hi := range st.handed {
+					if st.handed[hi].v == v {
+						st.handed[hi].fp = render(v.Interface()) // the source itself changed it
+					}
+				}
+				r.probe("source-reuses-its-value-object")
+			}
+			st.lastVal[c.Name] = lastValue{v: v, id: op.Part.ID, shared: op.Part.Share}
 			rec := r.begin(c, i, op)
 			r.hand(st, v, op.K)
 			ctx, cancel := r.opCtx(op, rec)
@@ -480,6 +509,11 @@ func (r *Run) reporter(c *ClientSpec) {
 			}
 			r.end(rec, err)
 			cancel()
+			if op.K == "breport" && !isCtxErr(err) {
+				lv := st.lastVal[c.Name]
+				lv.processed = true
+				st.lastVal[c.Name] = lv
+			}
 			if err == nil || op.K == "breport" && !isCtxErr(err) {
 				st.submitted(c.Name, op.Part.ID, true)
 			} else if op.K == "breport" {
